@@ -108,10 +108,14 @@ def ofOut (p : UGraph × Out) : Option (UGraph × Res Unit) :=
 @[simp] theorem ofOut_err (g : UGraph) : ofOut (g, .err) = some (g, .err) := rfl
 @[simp] theorem ofOut_panic (g : UGraph) : ofOut (g, .panic) = none := rfl
 
+/-- `index_map` has one entry per node (`index_map.len()` for `node_map.len()` is the same number) -/
+theorem indexMap_length {g : UGraph} (h : WF g) : g.indexMap.length = g.nodeMap.length := by
+  rw [h.indexSync]; simp [sync]
+
 /-- the facts of the invariant a proof may fall back on: `index_map` is the identity on the live indices, `node_count()` is
 `node_map.len()` -/
 macro "ug_wf" h:ident : tactic => `(tactic|
-  (simp only [WF.mGet_index $h, WF.len $h, WF.containsNode $h, WF.getNode $h, WF.containsEdge $h,
+  (simp only [indexMap_length $h, WF.mGet_index $h, WF.len $h, WF.containsNode $h, WF.getNode $h, WF.containsEdge $h,
     removeIncident_swap' (WF.edgesOk $h)] at *))
 
 /-- unfold the hand model and the vocabulary, normalise -/
